@@ -56,6 +56,34 @@ impl Dec {
     pub fn to_ref(&self) -> RefDec {
         RefDec { int: self.bigint(), exp: -(self.scale as i128) }
     }
+    /// The value under test after travelling through an identity-like std-trait operation (a defect in
+    /// Clone / clone_from / Neg / to_owned would otherwise never be observed by a harness that builds every
+    /// value freshly). 0 = fresh.
+    pub fn to_bd_via(&self, transport: u8) -> BigDecimal {
+        let v = self.to_bd();
+        match transport % 7 {
+            0 => v,
+            1 => v.clone(),
+            2 => {
+                // into an existing value of a different scale and sign
+                let mut slot = BigDecimal::new(BigInt::from(-70007), 3);
+                slot.clone_from(&v);
+                slot
+            }
+            3 => {
+                let mut slot = BigDecimal::new(BigInt::from(5), -40);
+                v.to_ref().clone_into(&mut slot);
+                slot
+            }
+            4 => v.to_ref().to_owned(),
+            5 => -(-v),
+            _ => {
+                let mut slots = vec![BigDecimal::new(BigInt::from(1), 1), BigDecimal::new(BigInt::from(2), 200)];
+                slots.clone_from_slice(&[v.clone(), v]);
+                slots.pop().unwrap()
+            }
+        }
+    }
     pub fn from_bd(d: &BigDecimal) -> Dec {
         let (i, s) = d.as_bigint_and_exponent();
         Dec { int: i.to_string(), scale: s }
